@@ -61,8 +61,33 @@ Definition decode_op (l : list Z) : op :=
   | [1; t; a; p] => Finish t a (negb (p =? 0))
   | [3; t; k] => Burst t k
   | [4] => Rewrap
+  | [5; _; _] => Rewrap   (* the context of an in-flight request is cancelled while its handler keeps running: for the
+                             accounting that is what Rewrap is, nothing (the slot goes back when the handler ends) *)
   | _ => BadSource
   end.
 
+(* A limiter built without a handler (connlimit.New(nil, ...)) and given one later through Wrap: a request that arrives
+   before Wrap and is not rejected is admitted, its handler call fails at once (nil handler: a panic) and the deferred
+   release gives the slot back: Arrive followed by Finish-by-panic. The harness sees -1 (the panic) instead of a
+   status. The first Wrap ([4]) ends this phase. *)
+Fixpoint run_unwrapped (maxc : Z) (s : st) (ops : list (list Z)) : list (list Z) :=
+  match ops with
+  | [] => []
+  | l :: r =>
+      match l with
+      | [4] => [] :: run_from (step maxc) s (map decode_op r)
+      | [0; t; a] =>
+          match acquire maxc s t a with
+          | None => [429; 0] :: run_unwrapped maxc s r
+          | Some s1 => [-1; 0] :: run_unwrapped maxc (fst (step maxc s1 (Finish t a true))) r
+          end
+      | _ => let '(s', o) := step maxc s (decode_op l) in o :: run_unwrapped maxc s' r
+      end
+  end.
+
+(* cfg: [max] or [max; 1] (1: built without a handler, wrapped later) *)
 Definition run (cfg : list Z) (ops : list (list Z)) : list (list Z) :=
-  run_from (step (zhd cfg)) init (map decode_op ops).
+  match cfg with
+  | [maxc; 1] => run_unwrapped maxc init ops
+  | _ => run_from (step (zhd cfg)) init (map decode_op ops)
+  end.
